@@ -18,7 +18,7 @@ def mk(prop, cont, leaf, inner, bins, pre, ops, group, quick, gt=False, opk=None
                  % (CN[cont], leaf, inner, 'binary' if bins else 'linear', PN[pre], ops, opsdesc,
                     ', comparator >' if gt else '', '; verify() after every step + counting allocator' if prop == 'C02' else ''),
                  defs=defs, link=[], cbmc=['--memory-leak-check'] if prop == 'C02' else [], tiers=('quick', 'thorough') if quick else ('thorough',),
-                 timeout=timeout or (3600 if quick else 10800), mem_gb=30, objbits=10, unwind=3 if opk == 3 and group == 0 else 6, max_unwind=64,
+                 timeout=timeout or (3600 if quick else 10800), mem_gb=30, objbits=10, unwind=3 if opk == 3 and group == 0 else 6, max_unwind=700 if pre == 3 else 64,
                  recursion=max(1, LEVELS.get(pre, 2) - 1 + (ops - 1)), weight=(pre + 1) * ops + (8 if opk == 3 else 0), validate=12)
 
 def build(prop):
